@@ -6,9 +6,9 @@ From BWPlanner Require Import Terms Rows Clause Store Fetch Plan PatternSpec Row
 
 (* ---------- the supported fragment, clause by clause (Domain.d3_clause), as a record of facts *)
 Record d3c (c : clause) : Prop := {
-  d_opt : c_opt c = false;
   d_spec3 : specificity3 c = false;
   d_nb : no_bounds c = true;
+  d_onb : cOLoA c = [] /\ cOUpA c = [];
   d_oid : cOIdA c = [];
   d_p : match cP c with Some _ => cPID c = [] | None => cPID c = [] \/ cPAncB c <> [] end;
   d_o : match cO c with Some _ => cOID c = [] | None => cOID c = [] \/ cOAncB c <> [] end;
@@ -19,23 +19,36 @@ Record d3c (c : clause) : Prop := {
 Lemma is_empty_false : forall s, is_empty s = false <-> s <> [].
 Proof. intros [|b s]; cbn; split; congruence. Qed.
 
-Lemma d3_clause_d3c : forall c, d3_clause c = true -> d3c c.
+Lemma d10_clause_d3c : forall c, d10_clause c = true -> d3c c.
 Proof.
-  intros c H. unfold d3_clause in H.
-  repeat (apply andb_prop in H; destruct H as [H ?]).
+  intros c H. unfold d10_clause in H.
+  apply andb_prop in H. destruct H as [H Hne].
+  apply andb_prop in H. destruct H as [H Hnd].
+  apply andb_prop in H. destruct H as [H Ho].
+  apply andb_prop in H. destruct H as [H Hp].
+  apply andb_prop in H. destruct H as [H Hoid].
+  apply andb_prop in H. destruct H as [H Houp].
+  apply andb_prop in H. destruct H as [H Holo].
+  apply andb_prop in H. destruct H as [H3 Hnb].
   constructor.
   - apply negb_true_iff. assumption.
-  - apply negb_true_iff. assumption.
   - assumption.
+  - split; apply is_empty_true; assumption.
   - apply is_empty_true. assumption.
   - destruct (cP c); [apply is_empty_true; assumption|].
-    match goal with X : _ || _ = true |- _ => apply orb_prop in X; destruct X as [X|X] end;
+    apply orb_prop in Hp; destruct Hp as [X|X];
       [left; apply is_empty_true; assumption|right; apply is_empty_false; apply negb_true_iff; assumption].
   - destruct (cO c); [apply is_empty_true; assumption|].
-    match goal with X : is_empty (cOID c) || _ = true |- _ => apply orb_prop in X; destruct X as [X|X] end;
+    apply orb_prop in Ho; destruct Ho as [X|X];
       [left; apply is_empty_true; assumption|right; apply is_empty_false; apply negb_true_iff; assumption].
   - apply nodup_str_NoDup. assumption.
   - destruct (binders c); [discriminate|discriminate].
+Qed.
+
+Lemma d3_clause_d3c : forall c, d3_clause c = true -> d3c c /\ c_opt c = false.
+Proof.
+  intros c H. unfold d3_clause in H. apply andb_prop in H. destruct H as [A B].
+  split; [apply d10_clause_d3c; exact B|apply negb_true_iff; exact A].
 Qed.
 
 (* ---------- without bound aliases and clause bounds the lookup options are left alone *)
@@ -64,11 +77,15 @@ Lemma cell_to_object_valid : forall e v, strlit_invalid e = false -> cell_to_obj
 Proof. intros e v H. destruct v; cbn; try discriminate. rewrite H. discriminate. Qed.
 
 Lemma asd_eq : forall e gs lo c mu,
-  c_opt c = false -> no_bounds c = true -> strlit_invalid e = false -> fix14 e = true ->
+  no_bounds c = true -> strlit_invalid e = false -> fix14 e = true ->
   add_specified_data e gs lo c mu =
-  bind (simple_fetch e gs (specialise e c mu) lo) (fun rows => Ok (map (merge_rows mu) (filter (compatible mu) rows))).
+  bind (simple_fetch e gs (specialise e c mu) lo)
+       (fun rows => Ok (match filter (compatible mu) rows with
+                        | [] => if c_opt c then [merge_rows mu (null_row (clause_bindings c) mu)] else []
+                        | l => map (merge_rows mu) l
+                        end)).
 Proof.
-  intros e gs lo c mu Hopt Hnb Hsl Hfix. unfold add_specified_data. cbv zeta.
+  intros e gs lo c mu Hnb Hsl Hfix. unfold add_specified_data. cbv zeta.
   rewrite (utbfr_id e lo c mu Hnb).
   assert (E1 : match spec_P_anchor c mu with None => Ok lo | Some _ => Ok lo end = @Ok lopts lo) by (destruct (spec_P_anchor c mu); reflexivity).
   rewrite E1. cbn [bind]. rewrite (utbfr_id e lo c mu Hnb).
@@ -77,14 +94,17 @@ Proof.
   assert (Hv : spec_O e c mu (spec_O_anchor c mu) <> ObjInvalid).
   { unfold spec_O. destruct (spec_O_anchor c mu); [discriminate|].
     destruct (bound_value e mu (cOB c) (cOA c)); [apply cell_to_object_valid; exact Hsl|discriminate]. }
-  rewrite Hfix, Hopt.
+  rewrite Hfix.
   assert (G : forall x : outcome (list row),
             bind x (fun rows => match filter (compatible mu) rows with
-                                | [] => Ok []
+                                | [] => if c_opt c then Ok [merge_rows mu (null_row (clause_bindings c) mu)] else Ok []
                                 | _ :: _ => Ok (map (fun nr => merge_rows mu nr) (filter (compatible mu) rows))
                                 end) =
-            bind x (fun rows => Ok (map (merge_rows mu) (filter (compatible mu) rows)))).
-  { intros [rows|?|?]; cbn; auto. destruct (filter (compatible mu) rows); reflexivity. }
+            bind x (fun rows => Ok (match filter (compatible mu) rows with
+                                    | [] => if c_opt c then [merge_rows mu (null_row (clause_bindings c) mu)] else []
+                                    | l => map (merge_rows mu) l
+                                    end))).
+  { intros [rows|?|?]; cbn [bind]; auto. destruct (filter (compatible mu) rows); [destruct (c_opt c); reflexivity|reflexivity]. }
   destruct (spec_O e c mu (spec_O_anchor c mu)) eqn:Eo; try congruence; unfold specialise; rewrite Eo; apply G.
 Qed.
 
@@ -97,7 +117,7 @@ Proof. reflexivity. Qed.
 
 (* ---------- rows of a clause with pairwise different binding names *)
 Definition rowopt (c : clause) (t : triple) : option row :=
-  if should_ignore c t then None else brow (binders c) t.
+  if should_ignore c t then None else brow (c_opt c) (binders c) t.
 
 Lemma option_map_app_nil : forall (x : option row), option_map (fun r0 => [] ++ r0) x = x.
 Proof. destruct x; reflexivity. Qed.
@@ -105,16 +125,16 @@ Proof. destruct x; reflexivity. Qed.
 Lemma row_of_rowopt : forall e c t, fixoid e = true -> d3c c -> row_of e c t = Ok (rowopt c t).
 Proof.
   intros e c t Hf D. unfold row_of, rowopt. destruct (should_ignore c t); [reflexivity|].
-  unfold triple_to_row. rewrite (d_opt c D).
-  rewrite (ttr_nodup e (binders c) t [] Hf (no_oid_alias_checked c t (d_oid c D)) (d_nd c D)); [|reflexivity].
+  unfold triple_to_row.
+  rewrite (ttr_nodup e (c_opt c) (binders c) t [] Hf (no_oid_alias_checked c t (d_oid c D)) (d_nd c D)); [|reflexivity].
   rewrite option_map_app_nil. reflexivity.
 Qed.
 
 Lemma spec_row_brow : forall c glo t, d3c c ->
-  spec_row c glo t = if consts_ok c glo t then brow (binders c) t else None.
+  spec_row c glo t = if consts_ok c glo t then brow (c_opt c) (binders c) t else None.
 Proof.
   intros c glo t D. unfold spec_row. destruct (consts_ok c glo t); [|reflexivity].
-  rewrite (d_opt c D), (spec_bind_nodup (binders c) t [] (d_nd c D)); [|reflexivity].
+  rewrite (spec_bind_nodup (c_opt c) (binders c) t [] (d_nd c D)); [|reflexivity].
   apply option_map_app_nil.
 Qed.
 
@@ -133,12 +153,12 @@ Proof.
 Qed.
 
 (* ---------- brow: the cell of a binder *)
-Lemma brow_get : forall bs t r k x, NoDup (map fst bs) -> brow bs t = Some r -> In (k, x) bs ->
-  exists v, xspec x t = Some v /\ get r k = Some v.
+Lemma brow_get : forall opt bs t r k x, NoDup (map fst bs) -> brow opt bs t = Some r -> In (k, x) bs ->
+  exists v, xval opt x t = Some v /\ get r k = Some v.
 Proof.
-  induction bs as [|[k0 x0] bs IH]; intros t r k x Hnd H Hin; [destruct Hin|].
-  cbn in H. destruct (xspec x0 t) as [v0|] eqn:X0; [|discriminate].
-  destruct (brow bs t) as [r0|] eqn:B; [|discriminate]. inversion H; subst. cbn in Hnd. inversion Hnd; subst.
+  intros opt. induction bs as [|[k0 x0] bs IH]; intros t r k x Hnd H Hin; [destruct Hin|].
+  cbn in H. destruct (xval opt x0 t) as [v0|] eqn:X0; [|discriminate].
+  destruct (brow opt bs t) as [r0|] eqn:B; [|discriminate]. inversion H; subst. cbn in Hnd. inversion Hnd; subst.
   destruct Hin as [E|Hin].
   - inversion E; subst. exists v0. split; [exact X0|]. cbn. rewrite str_eqb_refl. reflexivity.
   - destruct (IH t r0 k x H3 B Hin) as [v [A G]]. exists v. split; [exact A|]. cbn.
@@ -157,42 +177,37 @@ Proof.
 Qed.
 
 (* ---------- the specification's constants test = the lookups' matching + shouldIgnoreTriple *)
-Lemma brow_in_some : forall c t r k x, d3c c -> brow (binders c) t = Some r -> k <> [] ->
+Lemma brow_in_some : forall c t r k x, d3c c -> brow (c_opt c) (binders c) t = Some r -> k <> [] ->
   In (k, x) [(cSB c, XSubj); (cSA c, XSubj); (cSTy c, XSType); (cSId c, XSId);
              (cPB c, XPred); (cPA c, XPred); (cPIdA c, XPId); (cPAncB c, XPAnchor); (cPAncA c, XPAnchor);
              (cOB c, XObj); (cOA c, XObj); (cOTy c, XOType); (cOIdA c, XOId); (cOAncB c, XOAnchor); (cOAncA c, XOAnchor)] ->
-  exists v, xspec x t = Some v /\ get r k = Some v.
+  exists v, xval (c_opt c) x t = Some v /\ get r k = Some v.
 Proof.
   intros c t r k x D B Hk Hin. eapply brow_get; [apply (d_nd c D)|exact B|apply in_binders; assumption].
 Qed.
 
-Lemma p_anchor_some : forall c t r, d3c c -> brow (binders c) t = Some r -> cPAncB c <> [] ->
-  exists a, panchor (tpred t) = Some a /\ get r (cPAncB c) = Some (CTime a).
+Lemma p_anchor_cell : forall c t r, d3c c -> brow (c_opt c) (binders c) t = Some r -> cPAncB c <> [] ->
+  exists v, xval (c_opt c) XPAnchor t = Some v /\ get r (cPAncB c) = Some v.
 Proof.
-  intros c t r D B Hne. destruct (brow_in_some c t r (cPAncB c) XPAnchor D B Hne) as [v [X G]].
-  - cbn. do 7 right. left. reflexivity.
-  - cbn in X. destruct (panchor (tpred t)) as [a|]; [|discriminate]. inversion X; subst. exists a. auto.
+  intros c t r D B Hne. apply (brow_in_some c t r (cPAncB c) XPAnchor D B Hne). cbn. do 7 right. left. reflexivity.
 Qed.
 
-Lemma o_anchor_some : forall c t r, d3c c -> brow (binders c) t = Some r -> cOAncB c <> [] ->
-  exists p a, tobj t = OPred p /\ panchor p = Some a /\ get r (cOAncB c) = Some (CTime a).
+Lemma o_anchor_cell : forall c t r, d3c c -> brow (c_opt c) (binders c) t = Some r -> cOAncB c <> [] ->
+  exists v, xval (c_opt c) XOAnchor t = Some v /\ get r (cOAncB c) = Some v.
 Proof.
-  intros c t r D B Hne. destruct (brow_in_some c t r (cOAncB c) XOAnchor D B Hne) as [v [X G]].
-  - cbn. do 13 right. left. reflexivity.
-  - cbn in X. destruct (tobj t) as [n|p|l]; try discriminate. destruct (panchor p) as [a|] eqn:A; [|discriminate].
-    inversion X; subst. exists p, a. auto.
+  intros c t r D B Hne. apply (brow_in_some c t r (cOAncB c) XOAnchor D B Hne). cbn. do 13 right. left. reflexivity.
 Qed.
 
 Lemma gw_within : forall glo tp,
   gw glo tp = match panchor tp with Some ta => within (lo_lower glo) (lo_upper glo) ta | None => true end.
 Proof. intros. unfold gw, within. destruct (panchor tp); reflexivity. Qed.
 
-Lemma consts_fm : forall e c glo t r, d3c c -> ks e = true -> brow (binders c) t = Some r ->
+Lemma consts_fm : forall e c glo t r, d3c c -> ks e = true -> brow (c_opt c) (binders c) t = Some r ->
   consts_ok c glo t = fm e c glo t && negb (should_ignore c t).
 Proof.
-  intros e c glo t r D Hks B. unfold consts_ok, fm, should_ignore. rewrite <- gw_within, (d_opt c D).
+  intros e c glo t r D Hks B. unfold consts_ok, fm, should_ignore. rewrite <- gw_within.
   (* predicate part *)
-  assert (HP : pred_part_ok false (cP c) (cPID c) (cPAncB c) (cPLo c) (cPUp c) (tpred t) =
+  assert (HP : pred_part_ok (c_opt c) (cP c) (cPID c) (cPAncB c) (cPLo c) (cPUp c) (tpred t) =
                (match cP c with Some p => pp e p (tpred t) | None => true end) &&
                negb (if is_empty (cPID c) then false
                      else ignore_pred (cPID c) (cPTemporal c) (cPAncB c) (cPLo c) (cPUp c) (tpred t))).
@@ -200,15 +215,17 @@ Proof.
     - rewrite Dp. cbn. rewrite (pp_key e p (tpred t) Hks). btauto.
     - destruct (is_empty (cPID c)) eqn:Ei; [reflexivity|].
       destruct Dp as [Dp|Dp]; [apply is_empty_true in Dp; congruence|].
-      destruct (p_anchor_some c t r D B Dp) as [a [Ha _]]. rewrite Ha.
-      apply is_empty_false in Dp. unfold ignore_pred. rewrite Dp. cbn. btauto. }
+      destruct (p_anchor_cell c t r D B Dp) as [v [Xv _]]. unfold xval in Xv. cbn in Xv.
+      apply is_empty_false in Dp. unfold ignore_pred. rewrite Dp.
+      destruct (panchor (tpred t)) as [a|]; cbn; [btauto|].
+      destruct (c_opt c); [cbn; btauto|discriminate Xv]. }
   (* object part *)
   assert (HO : (match cO c with
                 | Some o => obj_key_eqb o (tobj t)
                 | None => if is_empty (cOID c) then true
                           else match tobj t with
-                               | OPred p => pred_part_ok false None (cOID c) (cOAncB c) (cOLo c) (cOUp c) p
-                               | _ => false && negb (is_empty (cOAncB c))
+                               | OPred p => pred_part_ok (c_opt c) None (cOID c) (cOAncB c) (cOLo c) (cOUp c) p
+                               | _ => c_opt c && negb (is_empty (cOAncB c))
                                end
                 end) =
                (match cO c with Some o => obj_key_eqb o (tobj t) | None => true end) &&
@@ -221,8 +238,12 @@ Proof.
     - rewrite Do. cbn. btauto.
     - destruct (is_empty (cOID c)) eqn:Ei; [reflexivity|].
       destruct Do as [Do|Do]; [apply is_empty_true in Do; congruence|].
-      destruct (o_anchor_some c t r D B Do) as [p [a [Ht [Ha _]]]]. rewrite Ht.
-      unfold pred_part_ok. rewrite Ei, Ha. apply is_empty_false in Do. unfold ignore_pred. rewrite Do. cbn. btauto. }
+      destruct (o_anchor_cell c t r D B Do) as [v [Xv _]]. unfold xval in Xv. cbn in Xv.
+      apply is_empty_false in Do. unfold pred_part_ok, ignore_pred. rewrite Ei, Do.
+      destruct (tobj t) as [n|p|l]; cbn.
+      + destruct (c_opt c); [reflexivity|discriminate Xv].
+      + destruct (panchor p) as [a|]; cbn; [btauto|]. destruct (c_opt c); [cbn; btauto|discriminate Xv].
+      + destruct (c_opt c); [reflexivity|discriminate Xv]. }
   rewrite HP, HO. btauto.
 Qed.
 
@@ -237,12 +258,12 @@ Qed.
 Lemma nokey_ne : forall mu k v, get mu [] = None -> get mu k = Some v -> k <> [].
 Proof. intros mu k v H G E. subst. congruence. Qed.
 
-Lemma binder_cell : forall c t r mu k x v, d3c c -> brow (binders c) t = Some r -> compat_equiv mu r = true ->
+Lemma binder_cell : forall c t r mu k x v, d3c c -> brow (c_opt c) (binders c) t = Some r -> compat_equiv mu r = true ->
   get mu [] = None -> get mu k = Some v ->
   In (k, x) [(cSB c, XSubj); (cSA c, XSubj); (cSTy c, XSType); (cSId c, XSId);
              (cPB c, XPred); (cPA c, XPred); (cPIdA c, XPId); (cPAncB c, XPAnchor); (cPAncA c, XPAnchor);
              (cOB c, XObj); (cOA c, XObj); (cOTy c, XOType); (cOIdA c, XOId); (cOAncB c, XOAnchor); (cOAncA c, XOAnchor)] ->
-  exists w, xspec x t = Some w /\ cell_equiv v w = true.
+  exists w, xval (c_opt c) x t = Some w /\ cell_equiv v w = true.
 Proof.
   intros c t r mu k x v D B C Hn G Hin.
   destruct (brow_in_some c t r k x D B (nokey_ne mu k v Hn G) Hin) as [w [X Gr]].
@@ -250,7 +271,7 @@ Proof.
 Qed.
 
 Lemma fm_special : forall e c lo t r mu, d3c c -> ks e = true -> get mu [] = None ->
-  brow (binders c) t = Some r -> compat_equiv mu r = true -> should_ignore c t = false ->
+  brow (c_opt c) (binders c) t = Some r -> compat_equiv mu r = true -> should_ignore c t = false ->
   fm e (specialise e c mu) lo t = fm e c lo t.
 Proof.
   intros e c lo t r mu D Hks Hn B C Si. unfold fm, specialise. cbn [cS cP cO with_SPO].
@@ -267,29 +288,31 @@ Proof.
     destruct (bound_value e mu (cSB c) (cSA c)) as [[| | n | | |]|] eqn:Eb; try reflexivity.
     destruct (bound_value_some _ _ _ _ _ Eb) as [G|G];
       (destruct (binder_cell c t r mu _ XSubj _ D B C Hn G) as [w [X E]];
-       [cbn; auto 6|cbn in X; inversion X; subst; cbn in E; exact E]).
+       [cbn; auto 6|unfold xval in X; cbn in X; inversion X; subst; cbn in E; exact E]).
   - (* predicate *)
     unfold spec_P, spec_P_anchor. destruct (cP c); [reflexivity|].
     destruct (negb (is_empty (cPID c)) && negb (is_empty (cPAncB c))) eqn:En.
     + apply andb_prop in En. destruct En as [En1 En2]. apply negb_true_iff in En1. apply negb_true_iff in En2.
       apply is_empty_false in En2.
-      destruct (p_anchor_some c t r D B En2) as [a [Ha Gr]].
+      destruct (p_anchor_cell c t r D B En2) as [va [Xa Gr]].
       assert (HBp : match (match bound_value e mu (cPB c) (cPA c) with Some (CPred p) => Some p | _ => None end) with
                     | Some p => pp e p (tpred t) | None => true end = true).
       { destruct (bound_value e mu (cPB c) (cPA c)) as [[| | |p| |]|] eqn:Eb; try reflexivity.
         destruct (bound_value_some _ _ _ _ _ Eb) as [G'|G'];
           (destruct (binder_cell c t r mu _ XPred _ D B C Hn G') as [w [X E]];
-           [cbn; auto 8|cbn in X; inversion X; subst; cbn in E; rewrite (pp_key e p (tpred t) Hks); exact E]). }
+           [cbn; auto 8|unfold xval in X; cbn in X; inversion X; subst; cbn in E; rewrite (pp_key e p (tpred t) Hks); exact E]). }
       destruct (get mu (cPAncB c)) as [[| | | | |ta]|] eqn:G; try exact HBp.
       (* the anchor binding gave a time *)
-      pose proof (compat_equiv_get mu r (cPAncB c) (CTime a) (CTime ta) C Gr G) as E. cbn in E.
+      pose proof (compat_equiv_get mu r (cPAncB c) va (CTime ta) C Gr G) as E.
+      unfold xval in Xa. cbn in Xa. destruct (panchor (tpred t)) as [a|] eqn:Ha;
+        [inversion Xa; subst va|destruct (c_opt c); inversion Xa; subst va; discriminate E]. cbn in E.
       rewrite (pp_key e _ (tpred t) Hks). unfold pred_key_eqb. cbn [pid panchor]. rewrite Ha, E, andb_true_r.
       rewrite En1 in SiP. unfold ignore_pred in SiP. apply orb_false_iff in SiP. destruct SiP as [S1 _].
       apply negb_false_iff in S1. rewrite str_eqb_sym. exact S1.
     + destruct (bound_value e mu (cPB c) (cPA c)) as [[| | |p| |]|] eqn:Eb; try reflexivity.
       destruct (bound_value_some _ _ _ _ _ Eb) as [G'|G'];
         (destruct (binder_cell c t r mu _ XPred _ D B C Hn G') as [w [X E]];
-         [cbn; auto 8|cbn in X; inversion X; subst; cbn in E; rewrite (pp_key e p (tpred t) Hks); exact E]).
+         [cbn; auto 8|unfold xval in X; cbn in X; inversion X; subst; cbn in E; rewrite (pp_key e p (tpred t) Hks); exact E]).
   - (* object *)
     unfold spec_O, spec_O_anchor. destruct (cO c); [reflexivity|].
     assert (HB : match objres_opt (match bound_value e mu (cOB c) (cOA c) with Some v => cell_to_object e v | None => ObjNone end) with
@@ -297,17 +320,22 @@ Proof.
     { destruct (bound_value e mu (cOB c) (cOA c)) as [v|] eqn:Eb; [|reflexivity].
       destruct (bound_value_some _ _ _ _ _ Eb) as [G'|G'];
         (destruct (binder_cell c t r mu _ XObj _ D B C Hn G') as [w [X E]];
-         [cbn; auto 12|cbn in X; inversion X; subst;
+         [cbn; auto 12|unfold xval in X; cbn in X; inversion X; subst;
           destruct v; cbn; try reflexivity; try (destruct (strlit_invalid e); reflexivity);
           destruct (tobj t); cbn in E; try discriminate; exact E]). }
     destruct (negb (is_empty (cOID c)) && negb (is_empty (cOAncB c))) eqn:En.
     + apply andb_prop in En. destruct En as [En1 En2]. apply negb_true_iff in En1. apply negb_true_iff in En2.
       apply is_empty_false in En2.
-      destruct (o_anchor_some c t r D B En2) as [p [a [Ht [Ha Gr]]]].
+      destruct (o_anchor_cell c t r D B En2) as [va [Xa Gr]].
       destruct (get mu (cOAncB c)) as [[| | | | |ta]|] eqn:G; try exact HB.
-      pose proof (compat_equiv_get mu r (cOAncB c) (CTime a) (CTime ta) C Gr G) as E. cbn in E.
-      cbn [objres_opt]. rewrite Ht. cbn. unfold pred_key_eqb. cbn [pid panchor]. rewrite Ha, E, andb_true_r.
-      rewrite En1, Ht in SiO. unfold ignore_pred in SiO. apply orb_false_iff in SiO. destruct SiO as [S1 _].
+      pose proof (compat_equiv_get mu r (cOAncB c) va (CTime ta) C Gr G) as E.
+      unfold xval in Xa. cbn in Xa.
+      destruct (tobj t) as [n0|p|l0] eqn:Ht;
+        try (destruct (c_opt c); inversion Xa; subst va; discriminate E).
+      destruct (panchor p) as [a|] eqn:Ha;
+        [inversion Xa; subst va|destruct (c_opt c); inversion Xa; subst va; discriminate E]. cbn in E.
+      cbn [objres_opt]. cbn. unfold pred_key_eqb. cbn [pid panchor]. rewrite Ha, E, andb_true_r.
+      rewrite En1 in SiO. unfold ignore_pred in SiO. apply orb_false_iff in SiO. destruct SiO as [S1 _].
       apply negb_false_iff in S1. rewrite str_eqb_sym. exact S1.
     + exact HB.
 Qed.
@@ -355,11 +383,11 @@ Proof.
   (* facts available whenever the lookup selects t *)
   assert (Hsel : fm e c5 glo t = true ->
                  should_ignore c (rebuilt c5 t) = should_ignore c t /\
-                 opt_rel row_equiv (brow (binders c) (rebuilt c5 t)) (brow (binders c) t)).
+                 opt_rel row_equiv (brow (c_opt c) (binders c) (rebuilt c5 t)) (brow (c_opt c) (binders c) t)).
   { intros Hf. pose proof (rebuilt_equiv e c5 glo t Hks Hf) as Ht. split.
     - apply should_ignore_equiv. exact Ht.
     - apply brow_equiv. exact Ht. }
-  destruct (brow (binders c) t) as [r|] eqn:B.
+  destruct (brow (c_opt c) (binders c) t) as [r|] eqn:B.
   2:{ assert (E : (if consts_ok c glo t then @None row else None) = None) by (destruct (consts_ok c glo t); reflexivity).
       rewrite E. destruct (fm e c5 glo t) eqn:Hf; [|constructor].
       destruct (Hsel eq_refl) as [_ Hb]. unfold rowopt. rewrite (opt_rel_none_r _ _ Hb).
@@ -409,17 +437,17 @@ Qed.
 Lemma no_bounds_with : forall c s p o, no_bounds (with_SPO c s p o) = no_bounds c.
 Proof. reflexivity. Qed.
 
-(* ---------- C03 composition, step for one row: addSpecifiedData = the specification's extensions of the row *)
-Theorem asd_spec : forall e gs glo c mu mu',
-  d3c c -> ks e = true -> strlit_invalid e = false -> fix14 e = true -> fixoid e = true -> fixsb e = true ->
+(* ---------- the specialised fetch, filtered by compatibility with the row = the specification's extensions of the row *)
+Lemma fetch_filtered : forall e gs glo c mu mu',
+  d3c c -> ks e = true -> fixoid e = true -> fixsb e = true ->
   forallb graph_nodup gs = true -> get mu [] = None -> row_equiv mu mu' ->
-  exists rows, add_specified_data e gs glo c mu = Ok rows /\ Forall2 row_equiv rows (spec_extend c glo gs mu').
+  exists F, simple_fetch e gs (specialise e c mu) glo = Ok F /\
+            Forall2 row_equiv (map (merge_rows mu) (filter (compatible mu) F)) (spec_extend c glo gs mu').
 Proof.
-  intros e gs glo c mu mu' D Hks Hsl H14 Hoid Hsb Hnd Hn Hm.
-  rewrite (asd_eq e gs glo c mu (d_opt c D) (d_nb c D) Hsl H14).
+  intros e gs glo c mu mu' D Hks Hoid Hsb Hnd Hn Hm.
   set (c5 := specialise e c mu).
   assert (Hno5 : cOIdA c5 = []) by (exact (d_oid c D)).
-  rewrite (fetch_uniform e gs c5 glo Hoid Hks Hsb Hno5 Hnd). cbn [bind].
+  rewrite (fetch_uniform e gs c5 glo Hoid Hks Hsb Hno5 Hnd).
   eexists. split; [reflexivity|].
   assert (Hlo : update_time_bounds glo c5 = glo) by (apply utb_id; exact (d_nb c D)).
   rewrite Hlo. rewrite map_filter_flat_map. unfold spec_extend.
@@ -433,4 +461,41 @@ Proof.
   destruct (rowopt c (rebuilt c5 t)) as [r|]; [|exact P].
   cbn. unfold compatible. unfold compat_equiv in P.
   destruct (forallb (fun kv => match get mu (fst kv) with Some v => cell_equiv v (snd kv) | None => true end) r); exact P.
+Qed.
+
+(* what one row contributes to the specification's step: its extensions, or - for an OPTIONAL clause without any - the row
+   with the clause's new bindings NULL *)
+Definition spec_one (glo : lopts) (gs : list graph) (c : clause) (mu : row) : list row :=
+  match spec_extend c glo gs mu with
+  | [] => if c_opt c
+          then [merge_rows mu (map (fun k => (k, CNull)) (filter (fun k => negb (has mu k)) (clause_bindings c)))]
+          else []
+  | ext => ext
+  end.
+
+Lemma spec_step_one : forall glo gs c mus, spec_step glo gs c mus = flat_map (spec_one glo gs c) mus.
+Proof. reflexivity. Qed.
+
+Lemma null_row_equiv : forall bs mu mu', row_equiv mu mu' ->
+  row_equiv (null_row bs mu) (map (fun k => (k, CNull)) (filter (fun k => negb (has mu' k)) bs)).
+Proof.
+  intros bs mu mu' H. unfold null_row. induction bs as [|b bs IH]; cbn; [constructor|].
+  rewrite (has_equiv mu mu' b H). destruct (has mu' b); cbn; [exact IH|]. constructor; [split; reflexivity|exact IH].
+Qed.
+
+(* ---------- composition, step for one row: addSpecifiedData = the specification's contribution of the row (conjunctive
+   or left outer join) *)
+Theorem asd_spec : forall e gs glo c mu mu',
+  d3c c -> ks e = true -> strlit_invalid e = false -> fix14 e = true -> fixoid e = true -> fixsb e = true ->
+  forallb graph_nodup gs = true -> get mu [] = None -> row_equiv mu mu' ->
+  exists rows, add_specified_data e gs glo c mu = Ok rows /\ Forall2 row_equiv rows (spec_one glo gs c mu').
+Proof.
+  intros e gs glo c mu mu' D Hks Hsl H14 Hoid Hsb Hnd Hn Hm.
+  rewrite (asd_eq e gs glo c mu (d_nb c D) Hsl H14).
+  destruct (fetch_filtered e gs glo c mu mu' D Hks Hoid Hsb Hnd Hn Hm) as [F [EF HF]].
+  rewrite EF. cbn [bind]. eexists. split; [reflexivity|]. unfold spec_one.
+  destruct (filter (compatible mu) F) as [|x l] eqn:Ef.
+  - cbn in HF. inversion HF as [E|]; subst. destruct (c_opt c); [|constructor].
+    constructor; [|constructor]. apply merge_equiv; [exact Hm|]. apply null_row_equiv. exact Hm.
+  - destruct (spec_extend c glo gs mu') as [|y l'] eqn:Ee; [inversion HF|]. exact HF.
 Qed.
